@@ -185,11 +185,22 @@ fn eval_c02_c03(job: &Job) -> JobResult {
             res.violations.push(viol("exploration_aborted", sum.verdict.short(), "Ok".into(), sum.message.lines().next().unwrap_or("").to_string(), json!({})));
             return res;
         }
+        // attribution of a missing outcome (used when the known-findings list is generated): is it
+        // also missing from RC11 restricted to "an RMW / failing CAS reads the newest store"?
+        let mut restricted: Option<rc11::Rc11Result> = None;
         for o in &rc.outcomes {
             if col.outcomes.contains_key(o) {
                 res.traces_validated += 1;
             } else {
-                res.violations.push(viol("missing_outcome", fmt_outcome(o), "RC11-consistent outcome (po ∪ rf acyclic) is produced by some iteration".into(), format!("{} iterations, {} outcomes", col.iters, col.outcomes.len()), json!({"loom_outcomes": outs_json(col.outcomes.keys())})));
+                let has_rmw = p.threads.iter().flatten().any(|x| matches!(x.k, K::Swap { .. } | K::FetchAdd { .. } | K::Cas { .. }));
+                let mut cause = "unattributed";
+                if has_rmw {
+                    let r = restricted.get_or_insert_with(|| rc11::enumerate(p, Variant::Rc11RmwNewest, RC_MAX_STATES));
+                    if !r.truncated && !r.outcomes.contains(o) {
+                        cause = "rmw-reads-only-newest-store";
+                    }
+                }
+                res.violations.push(viol("missing_outcome", fmt_outcome(o), "RC11-consistent outcome (po ∪ rf acyclic) is produced by some iteration".into(), format!("{} iterations, {} outcomes", col.iters, col.outcomes.len()), json!({"loom_outcomes": outs_json(col.outcomes.keys()), "attribution": cause})));
             }
         }
     } else {
